@@ -343,3 +343,65 @@ func ruleC13MemoryLatestByKey(c *Ctx) {
 	}
 	c.check(bad == "" && cmp > 0, "persistence.MemoryMetastore.LoadLatest/ordering", u.pos(f.Pos()), "ordered by the stored creation keys", bad+" (a record whose own Created differs from its (id, created) key — zero, or copied — is ranked wrongly and an older key is returned as the latest)")
 }
+
+// ruleC13ReadsHitBackend: Load and LoadLatest answer from the backend, in this very call: every path to a return that
+// carries a record passes the backend read (memory: a lookup in Envelopes under the lock; SQL: QueryRowContext; DynamoDB:
+// GetItem / Query on the client). A memo, pool or other process-local copy in front of the table would keep serving a
+// record whose Revoked flag has since been set ("reads are strongly consistent, a completed write is visible to every
+// later read").
+func ruleC13ReadsHitBackend(c *Ctx) {
+	u := c.U1
+	c.rule("C13.reads-hit-the-backend", "in Load and LoadLatest of every metastore, every path from entry to a return with a non-nil record passes this call's own backend read (Envelopes lookup / QueryRowContext / GetItem / Query): no process-local memo answers instead of the table", 8)
+	for _, m := range metastoreImpls(c) {
+		for _, mn := range []string{"Load", "LoadLatest"} {
+			f := u.MethodOf(m.N, mn)
+			if f == nil || f.Blocks == nil {
+				c.unresolved(m.N.Obj().Name()+"."+mn, "method")
+				continue
+			}
+			c.FuncsAnalysed[shortName(f)] = true
+			isRead := func(i ssa.Instruction) bool {
+				switch m.Kind {
+				case "memory":
+					if lk, ok := i.(*ssa.Lookup); ok {
+						return strings.HasSuffix(accessPath(lk.X), ".Envelopes")
+					}
+				case "sql":
+					return staticIs(i, "(*database/sql.DB).QueryRowContext") || staticIs(i, "(*database/sql.DB).QueryContext")
+				default:
+					if cc := callOf(i); cc != nil && cc.IsInvoke() {
+						if _, fld, ok := fieldAccess(cc.Value); ok && fld == "svc" && (strings.HasPrefix(cc.Method.Name(), "GetItem") || strings.HasPrefix(cc.Method.Name(), "Query")) {
+							return true
+						}
+					}
+				}
+				return false
+			}
+			name := trimPkgDirs(shortName(f))
+			n := 0
+			for _, r := range returnsOf(f) {
+				if len(r.Results) != 2 || isNilValue(returnedValue(r, 0)) {
+					continue
+				}
+				n++
+				found, tr := pathSearchAt(f.Blocks[0], 0, func(i ssa.Instruction) pathAction {
+					if isRead(i) {
+						return pathStop
+					}
+					if i == ssa.Instruction(r) {
+						return pathFound
+					}
+					return pathContinue
+				}, nil)
+				if found {
+					c.bad(name+"/record-return", u.ipos(r), "a record can be returned on a path that never asked the backend in this call (a memo / cached copy answers): a later revocation or a newer key in the table is not seen", u.tracePositions(tr)...)
+				} else {
+					c.ok(name+"/record-return", u.ipos(r), "every path to this return passes the backend read")
+				}
+			}
+			if n == 0 {
+				c.bad(name+"/record-return", u.pos(f.Pos()), "no return carrying a record found")
+			}
+		}
+	}
+}
